@@ -353,8 +353,8 @@ def _r5(chk: Check, R5: str, rootq: str) -> None:
         for mn in proto:
             protocol_loads.update(x for x in ast.walk(vci.methods[mn]) if isinstance(x, ast.Attribute) and isinstance(x.ctx, ast.Load))
         # methods / properties of the state class that only the charge function uses are part of the charge function
-        if charge_q.startswith(vm + '.'):
-            charge_name = charge_q[len(vm) + 1:].split('.')[0]
+        if True:
+            charge_name = charge_q[len(vm) + 1:].split('.')[0] if charge_q.startswith(vm + '.') else None
             for mn, mnode in vci.methods.items():
                 if mn == charge_name or mn in proto or mn.startswith('__'):
                     continue
@@ -416,7 +416,8 @@ def _r5(chk: Check, R5: str, rootq: str) -> None:
                 chk.bad(R5, 'string %r in %s' % (n.value, _encl(F, m, n)), where,
                         'counter accessed reflectively (string constant naming it)')
             if isinstance(n, ast.Call) and isinstance(n.func, ast.Name) and n.func.id in ('setattr', 'delattr', 'vars') \
-                    and m.name in ('smartquery.ast_ops', 'smartquery.sq_parser', 'smartquery.vm_state'):
+                    and m.name in ('smartquery.ast_ops', 'smartquery.sq_parser', 'smartquery.vm_state') \
+                    and not _always_constant_setattr(F, n):
                 chk.bad(R5, '%s(...) in %s' % (n.func.id, _encl(F, m, n)), where,
                         'reflective attribute write next to the VM state: `%s`' % norm(n))
             if isinstance(n, ast.Attribute) and n.attr == '__dict__' \
@@ -433,3 +434,10 @@ def _encl(F, m, node) -> str:
                 if best is None or fi.node.lineno >= F.functions[best].node.lineno:
                     best = q
     return best or m.name
+
+
+def _always_constant_setattr(F, node) -> bool:
+    """A setattr(obj, name, v) call whose name was a known constant every time a path went through it (and some path did):
+    the evaluator has turned it into the plain attribute stores it stands for, which the other rules see."""
+    rec = F.__dict__.get('_setattr_nodes', {}).get(id(node))
+    return bool(rec) and rec[0] is node and rec[1] is True
